@@ -10,7 +10,7 @@ TEXT = {
            "tried with the state lock free, everything released), acts_sectionsAtomic (the action after every acquisition is the release), progress (in the global transition system of any "
            "number of threads, if a thread is unfinished some thread is enabled: no schedule deadlocks), busy_update_inert. The model's action trace of every call is compared, action by "
            "action, with the trace logged by the lock hooks and network callbacks of the real library; the depth counter is read inside every network callback.",
-  "design_ref": "DESIGN.md section 3, C12",
+  "design_ref": "DESIGN.md section 4, C12",
   "note": "partial: 'promptly' is runtime (a dedicated hung-download scenario checks that queries and a second update return while the download hangs); Mutex semantics trusted.",
   "technique": "Lean 4 theorems over lock/network action traces + trace-level correspondence with the instrumented library",
  },
@@ -19,7 +19,7 @@ TEXT = {
            "header_agrees_with_rust, dart_agrees_with_rust (every looked-up symbol exists with ABI-equal signature), structs_agree + layouts (equal field lists, hence equal layouts; concrete "
            "UpdateResult layout), and the ownership lemmas path_roundtrip / result_roundtrip / double_free_flagged / free_null in the heap model. Runtime side: nm -D of the built cdylib, "
            "sizeof/offsetof from a C compiler vs the model layout, alloc/free sequences under valgrind memcheck (thorough: ASan).",
-  "design_ref": "DESIGN.md section 3, C15",
+  "design_ref": "DESIGN.md section 4, C15",
   "note": "partial: allocator behaviour is runtime (valgrind is supporting evidence); Dart side checked as text.",
   "technique": "Lean 4 theorems over source-derived tables (translator) + C/valgrind run against the built library",
  },
@@ -28,7 +28,7 @@ TEXT = {
            "by induction over the match list with LEB128/zig-zag round-trip lemmas and wrapping byte arithmetic; roundtrip_hash for the reported hash. The Lean encoder is compared "
            "byte for byte with bidiff's real output, the Lean decoder with the real bipatch crate (also on damaged streams), SHA-256 with sha2, and the real tool's file is installed "
            "through the real library end to end.",
-  "design_ref": "DESIGN.md section 3, C16",
+  "design_ref": "DESIGN.md section 4, C16",
   "note": "partial: zstd trusted (identity assumed, observed on every end-to-end case); that bidiff's scanner emits a tiling is checked at run time on every pair, not proved.",
   "technique": "Lean 4 theorem (encode/decode round trip for all inputs) + differential check against the real crates",
  },
@@ -36,14 +36,14 @@ TEXT = {
   "level": "Theorems next_boot_patch_sound (for EVERY world, any disk contents: a reported next-boot patch is the recorded selection, its file exists with the recorded size, "
            "and with a key the recorded signature verifies over the file's current SHA-256) and C01_holds (over all histories incl. every damage of the alphabet: the size is the "
            "size at a verified install of that number; launch start records a boot only of such a patch). The same monitor runs on the real library's traces under heavy damage.",
-  "design_ref": "DESIGN.md section 3, C01",
+  "design_ref": "DESIGN.md section 4, C01",
   "note": "Lean kernel; `verify` parameter = ring's verdicts; stale JSON = earlier versions of the file (StaleOK); forged state files excluded (not in the property's list).",
   "technique": "Lean 4 theorems (case analysis for all disks + provenance invariant over histories) + differential correspondence check",
  },
  "C07": {
   "level": "Theorems C07_signed_only / C07_missing_signature / C07_bad_key (every world), C07_rejection_is_fallback, C07_install_requires_signature (the install gate added by the fix), "
            "plus C01_holds. Monitors C01 and C05 run on the real library with valid, invalid and unparsable keys and every signature variant.",
-  "design_ref": "DESIGN.md section 3, C07",
+  "design_ref": "DESIGN.md section 4, C07",
   "note": "ring/base64 trusted; `verify` filled with ring's real verdicts per (key, hash, signature) triple by the harness.",
   "technique": "Lean 4 theorems (corollaries of validate-on-read for all disks) + differential correspondence check",
  },
@@ -51,21 +51,21 @@ TEXT = {
   "level": "Theorems update_installed_sound (for every disk: 'installed' implies the download decodes against the base to a file with the advertised SHA-256, signed if required, "
            "and the selected artifact is byte-identical to it), installStage_failed (every other download is an error status and leaves the disk alone) and C05_holds over all histories. "
            "The decoder is the Lean model of bipatch; it and SHA-256 are compared with the real crates on the same bytes.",
-  "design_ref": "DESIGN.md section 3, C05",
+  "design_ref": "DESIGN.md section 4, C05",
   "note": "zstd trusted (harness supplies the decompressor's actual output); hex crate semantics modelled.",
   "technique": "Lean 4 theorems (outcome case lemmas of the update path, all states) + differential correspondence check",
  },
  "C06": {
   "level": "Theorems C06_check_failed, C06_bad_response, C06_download_failed, afterCheck_healthy and C06_holds (= the C05 monitor over all histories and arbitrary server scripts: every "
            "request may fail, responses may be contradictory). Callback-level fault injection at every request position runs on the real library; totality of `step` gives 'every call returns'.",
-  "design_ref": "DESIGN.md section 3, C06",
+  "design_ref": "DESIGN.md section 4, C06",
   "note": "partial: reqwest/TLS/socket behaviour is runtime and only its classified result is modelled.",
   "technique": "Lean 4 theorems + differential correspondence check with scripted network failures",
  },
  "C20": {
   "level": "Theorem C20_holds (under AppConsistent): every check request carries app id, release, platform, arch and the channel chosen by precedence; a per-call channel never enters the "
            "stored configuration (step_config); every event, queued ones included, carries the configured app id and release. Monitor runs on the real library with arbitrary UTF-8 strings.",
-  "design_ref": "DESIGN.md section 3, C20",
+  "design_ref": "DESIGN.md section 4, C20",
   "note": "hypothesis AppConsistent (same compiled-in app id across restarts of one history).",
   "technique": "Lean 4 theorem (invariant on the persisted event queue) + differential correspondence check",
  },
@@ -73,7 +73,7 @@ TEXT = {
   "level": "Theorem C19_holds: every model history is accepted by the C19 monitor - all five reclamation clauses (success sweep, failed patch, rolled-back patch, "
            "superseded pending patch, release change) proved for every reachable and unreachable disk the call may start from, arbitrary histories incl. damage. "
            "The same monitor runs on the real library's traces.",
-  "design_ref": "DESIGN.md section 3, C19",
+  "design_ref": "DESIGN.md section 4, C19",
   "note": "Lean kernel; model/code correspondence (directory listing with contents after every call) sampled by this run's campaign.",
   "technique": "Lean 4 theorem (per-call case analysis over all states, lifted over histories) + differential correspondence check",
  },
@@ -81,7 +81,7 @@ TEXT = {
   "level": "Theorem C08_holds: every model history is accepted by the C08 monitor - the first call that loads state written for another release (or unreadable) ends "
            "with no patch recorded, no ban, no artifact, no queued event and the state re-keyed, for arbitrary old state and version strings; proved by showing such a call "
            "acts exactly as on the clean disk of the new release (opDisk_unsettled, opDisk_cleanDisk).",
-  "design_ref": "DESIGN.md section 3, C08",
+  "design_ref": "DESIGN.md section 4, C08",
   "note": "Lean kernel; correspondence sampled by this run's campaign (release-change heavy profile).",
   "technique": "Lean 4 theorem (simulation: unsettled disk behaves as clean disk) + differential correspondence check",
  },
@@ -89,7 +89,7 @@ TEXT = {
   "level": "Theorem C17_holds: every model history is accepted by the C17 monitor - install-success event exactly when the booted patch differs from the last good one, "
            "exactly one queued failure event per reported/crash-detected failure, update sends the first three queued events before the check and empties the queue, "
            "one download event after and only after an install, fields as configured. The same monitor runs on the real library's traces (ordered network log).",
-  "design_ref": "DESIGN.md section 3, C17",
+  "design_ref": "DESIGN.md section 4, C17",
   "note": "Lean kernel; correspondence incl. the ordered stream of event/check/download callbacks, sampled by this run's campaign.",
   "technique": "Lean 4 theorem (per-call characterisation of state.json and the emitted actions) + differential correspondence check",
  },
@@ -100,7 +100,7 @@ TEXT = {
            "successfully, n fails/crashes, n is rolled back, the release changes, n / the state files are damaged from outside, or the server re-issues n with other bytes; (b) whenever a call loses the selected "
            "patch, the selection afterwards is that last good patch, or nothing if there is none. Invariants GoodD (last good record + bytes + validity of every record "
            "of n) and RelPS (how selection and last-good record may move), pushed through every patch-manager function, section and call. Same monitor on real traces.",
-  "design_ref": "DESIGN.md section 3, C03",
+  "design_ref": "DESIGN.md section 4, C03",
   "note": "Lean kernel; model/code correspondence sampled by this run's campaign (pending-patch clean-up with a last good patch present, re-installs, damage).",
   "technique": "Lean 4 theorem (inductive invariants over all histories) + differential correspondence check",
  },
@@ -110,7 +110,7 @@ TEXT = {
            "elsewhere) until the launch is reported failed, n is rolled back / re-issued / damaged, the release changes or the process ends; (2) after a restart and "
            "before the next launch start current_boot_patch reports the last good patch (0 if none); (3) a launch start records the patch it selected as booting. "
            "Invariants RunD (current record + validity of every record of n), BootSub (only a launch start sets the booting record) and the C03 invariants.",
-  "design_ref": "DESIGN.md section 3, C18",
+  "design_ref": "DESIGN.md section 4, C18",
   "note": "Lean kernel; model/code correspondence sampled by this run's campaign (updates completing between launch start and success, several installs per run).",
   "technique": "Lean 4 theorem (inductive invariants over all histories) + differential correspondence check",
  },
@@ -121,7 +121,7 @@ TEXT = {
            "pathToCString_ok (the two data-dependent sites); uninit_defaults and C13_holds (every call before a successful init returns its documented default and "
            "touches nothing). The campaign runs the real library on malformed yaml / responses / downloads / state files and arbitrary call orders under a panic hook; "
            "a panic that aborts the process is recovered from the crash journal as a shrunk replay.",
-  "design_ref": "DESIGN.md section 3, C13",
+  "design_ref": "DESIGN.md section 4, C13",
   "note": "Lean kernel; partial: panics inside std/dependencies are outside the model (campaign evidence only).",
   "technique": "Lean 4 theorem over a translator-generated site table + explicit panic semantics + differential campaign under a panic hook",
  },
@@ -157,7 +157,7 @@ TEXT = {
            "updates, rollbacks of other numbers, damage elsewhere) until another install, a failed/crashed boot of n, a rollback naming n, a release change or outside "
            "damage to the state files or n's artifact. Invariant SelD pushed through every patch-manager function, section and call (step_sel). The same monitor runs "
            "on the real library's traces.",
-  "design_ref": "DESIGN.md section 3, C09",
+  "design_ref": "DESIGN.md section 4, C09",
   "note": "Lean kernel; model/code correspondence sampled by this run's campaign (out-of-order numbers, installs during boot, rollbacks of other numbers).",
   "technique": "Lean 4 theorem (inductive invariant over all histories) + differential correspondence check",
  },
@@ -166,7 +166,7 @@ TEXT = {
            "n has no artifact and is not the next-boot patch after that call and every later one, until an update installs n again (or the release changes / "
            "state files are damaged). Invariant RollD pushed through every patch-manager function, section and call (step_roll); the install path is handled "
            "by the outcome case lemma afterCheck_cases. The same monitor runs on the real library's traces.",
-  "design_ref": "DESIGN.md section 3, C10",
+  "design_ref": "DESIGN.md section 4, C10",
   "note": "Lean kernel; model/code correspondence sampled by this run's campaign.",
   "technique": "Lean 4 theorem (inductive invariant over all histories) + differential correspondence check",
  },
@@ -175,7 +175,7 @@ TEXT = {
            "state files not damaged) n is banned on disk and in none of the three slots after every later operation, queries never report it, an update offered n "
            "requests no download and answers 'bad patch'/'no update', a check answers false. Proved by an invariant (BanD) preserved by every patch-manager function, "
            "every critical section and every API call (step_ban), lifted by induction over histories. The same monitor runs on the real library's traces.",
-  "design_ref": "DESIGN.md section 3, C02",
+  "design_ref": "DESIGN.md section 4, C02",
   "note": "Lean kernel; model/code correspondence sampled by this run's campaign; process death only at call boundaries here (inside calls: C04).",
   "technique": "Lean 4 theorem (inductive invariant over all histories) + differential correspondence check",
  },
@@ -183,7 +183,7 @@ TEXT = {
   "level": "Theorem C14_holds: for every history (any call order, damage, restarts, parameters) the C14 monitor accepts the model trace; "
            "init_configured: a second init returns false and leaves the whole world unchanged for every world. The same monitor is evaluated on "
            "the real library's traces in this run, and model and code are compared field by field after every call.",
-  "design_ref": "DESIGN.md section 3, C14",
+  "design_ref": "DESIGN.md section 4, C14",
   "note": "Lean kernel + model/code correspondence sampled by the campaign; restart modelled as reset of the global config.",
   "technique": "Lean 4 theorem (invariant by induction over histories) + differential correspondence check",
  },
